@@ -1,0 +1,17 @@
+//go:build verif
+
+// Contracts (machine-checked specifications) for package forwarding (types), read by /verif's govc.
+// This file contains comments only and compiles to nothing with or without the tag.
+
+package forwarding
+
+// The counterparty identifier of a transfer is the decimal form of its destination domain: the same
+// string pause messages are validated against (C20) and keyed on (C08).
+//@ func (a *CCTPAttributes) CounterpartyID() (s)
+//@   ensures[C20,C08] a != nil ==> s == dec(a.DestinationDomain)
+
+//@ func (a *HypAttributes) CounterpartyID() (s)
+//@   ensures[C20,C08] a != nil ==> s == dec(a.DestinationDomain)
+
+//@ func (a *InternalAttributes) CounterpartyID() (s)
+//@   ensures[C20,C08] s == "noble"
